@@ -72,7 +72,15 @@ def signature(ctx, F, cfg):
             tables[path] = "unreadable"
     import re as _re
     # rustc prints constants that live in memory (&[&str], &[T]) by allocation id, which is not a value: compare their type only
-    consts = {p: _re.sub(r"alloc_id: alloc\d+", "alloc_id: <alloc>", c.get("val") or "") for p, c in F.consts.items() if c.get("pv") == "user" and not p.endswith("::_")}
+    def norm(v):
+        v = _re.sub(r"alloc_id: alloc\d+", "alloc_id: <alloc>", v or "")
+        # a struct-valued constant: members that are `None` are left out, so that a member which exists only with a feature and
+        # is unset in the constant does not make the constant "depend on features" (features only add members)
+        if _re.match(r"^[\w:<>, ]+ \{\{ .* \}\}$", v):
+            v = _re.sub(r"(?:, )?\b\w+: core::option::Option::<[^{}]*?>::None(?=, | \}\})", "", v)
+            v = v.replace("{{ , ", "{{ ")
+        return v
+    consts = {p: norm(c.get("val")) for p, c in F.consts.items() if c.get("pv") == "user" and not p.endswith("::_")}
     return sig, tables, consts
 
 
